@@ -82,7 +82,7 @@ impl Scenario for C18 {
                     22..=24 => "monitor",
                     25 => "demonitor",
                     26 | 27 => "kill",
-                    28 => if burst_run { "burst" } else { "send" },
+                    28 => if burst_run { "burst" } else { "spawn" },
                     _ => "pause",
                 };
                 ops.push(Op { kind: kind.to_string(), a: r.below(8) as u32, b: r.below(8) as u32 });
@@ -129,7 +129,7 @@ impl Scenario for C18 {
             components_stubbed: &["EPMD (stub; Node::start must register first)", "Process handlers (instrumented recorders; the behaviour callbacks are instrumented too)"],
             assumptions: &["link/unlink operations on one pair and monitor/demonitor operations on one (watcher, target) pair are issued by a single driver task, so their order is known; everything else is concurrent", "a process's death is an interval from the failing handler event to the drop of the process object; operations overlapping it may or may not take effect"],
             fault_prefixes: &["fault.", "proc."],
-            expected_probes: &["probe.c18.delivered", "probe.c18.exit_notified", "probe.c18.monitor_notified", "probe.c18.no_notice_after_unlink", "probe.c18.dead_pid_rejected", "probe.c18.name_of_dead_process_free", "probe.c18.name_history_linearizable", "probe.c18.send_name_delivered", "probe.c18.backpressure_burst", "probe.c18.gen_call_replied", "probe.c18.gen_event_notified"],
+            expected_probes: &["probe.c18.delivered", "probe.c18.exit_notified", "probe.c18.monitor_notified", "probe.c18.no_notice_after_unlink", "probe.c18.dead_pid_rejected", "probe.c18.name_of_dead_process_free", "probe.c18.name_history_linearizable", "probe.c18.send_name_delivered", "probe.c18.backpressure_burst", "probe.c18.gen_call_replied", "probe.c18.gen_event_notified", "probe.c18.spawned_mid_history"],
         }
     }
 }
@@ -247,23 +247,67 @@ async fn procs(w: &Arc<World>, p: &Plan) {
             w.violation("duplicate-pid", "spawn returned the same identifier twice".to_string());
         }
     }
-    let pids = Arc::new(pids);
+    // two more slots for processes spawned while the history runs
+    let late_slots = 2usize;
+    let mut slots: Vec<Option<ExternalPid>> = pids.into_iter().map(Some).collect();
+    slots.extend((0..late_slots).map(|_| None));
+    let pids: Arc<Mutex<Vec<Option<ExternalPid>>>> = Arc::new(Mutex::new(slots));
+    let next_late = Arc::new(Mutex::new(p.n_procs as usize));
     let names: Arc<Vec<Atom>> = Arc::new((0..p.n_names).map(|i| Atom::new(format!("name{}", i))).collect());
     let ops_log: Arc<Mutex<Vec<OpRec>>> = Arc::new(Mutex::new(Vec::new()));
     let refs: Arc<Mutex<HashMap<(usize, usize), Vec<ExternalReference>>>> = Arc::new(Mutex::new(HashMap::new()));
     w.set_yield_cfg(YieldCfg { intensity: p.yield_intensity, site_mask: p.yield_mask, max_sleep_ms: p.yield_sleep_ms });
 
     let n_tasks = p.tasks.len();
-    let np = p.n_procs as usize;
+    let np = p.n_procs as usize + late_slots;
     let mut handles = Vec::new();
     for (ti, ops) in p.tasks.iter().enumerate() {
-        let (node, ops, hist, pids, names, ops_log, refs, w) = (node.clone(), ops.clone(), hist.clone(), pids.clone(), names.clone(), ops_log.clone(), refs.clone(), w.clone());
+        let (node, ops, hist, pids_shared, names, ops_log, refs, w) = (node.clone(), ops.clone(), hist.clone(), pids.clone(), names.clone(), ops_log.clone(), refs.clone(), w.clone());
+        let next_late = next_late.clone();
+        let stall_16 = p.proc_stall_16;
         handles.push(tokio::spawn(async move {
             for (k, op) in ops.iter().enumerate() {
-                let a = op.a as usize % np;
-                let mut b = op.b as usize % np;
+                if op.kind == "spawn" {
+                    let slot = {
+                        let mut g = next_late.lock().unwrap();
+                        if *g >= np {
+                            continue;
+                        }
+                        *g += 1;
+                        *g - 1
+                    };
+                    let inv = next_seq(&hist);
+                    let r = node.spawn(Rec { idx: slot, hist: hist.clone(), world: w.clone(), stall_16 }).await;
+                    let ret = next_seq(&hist);
+                    if let Ok(pid) = r {
+                        w.ev(format!("task {} op {} spawn -> slot {} [{}..{}]", ti, k, slot, inv, ret));
+                        w.stat("probe.c18.spawned_mid_history");
+                        pids_shared.lock().unwrap()[slot] = Some(pid);
+                    } else {
+                        w.violation("spawn-failed", "spawn on a started node failed".to_string());
+                    }
+                    continue;
+                }
+                // operations name processes that exist at this moment
+                let snapshot: Vec<Option<ExternalPid>> = pids_shared.lock().unwrap().clone();
+                let existing: Vec<usize> = (0..np).filter(|i| snapshot[*i].is_some()).collect();
+                let a = existing[op.a as usize % existing.len()];
+                let mut b = existing[op.b as usize % existing.len()];
+                let needs_b = matches!(op.kind.as_str(), "register" | "link" | "unlink" | "monitor" | "demonitor");
+                let needs_a = !matches!(op.kind.as_str(), "register" | "unregister" | "whereis" | "send_name" | "pause");
+                if a == b && needs_b && needs_a {
+                    b = existing[(op.b as usize + 1) % existing.len()];
+                }
+                if (needs_a && snapshot[a].is_none()) || (needs_b && snapshot[b].is_none()) {
+                    continue;
+                }
+                let dummy = ExternalPid::new(Atom::new("none@none"), 0, 0, 0);
+                let pids: Vec<ExternalPid> = snapshot.iter().map(|p| p.clone().unwrap_or_else(|| dummy.clone())).collect();
                 let nm = op.a as usize % names.len();
                 let mut rec = OpRec { task: ti, k, kind: op.kind.clone(), a, b, inv: 0, ret: 0, res: Res::Ok, body: None };
+                if rec.kind == "spawn" {
+                    continue;
+                }
                 // pair discipline: link/unlink on a pair and monitor/demonitor on (watcher,target) belong to one task
                 let pair_owner = |x: usize, y: usize| (x.min(y) * 8 + x.max(y)) % n_tasks;
                 match op.kind.as_str() {
@@ -448,13 +492,29 @@ async fn procs(w: &Arc<World>, p: &Plan) {
             return;
         }
     }
+    let pids: Vec<ExternalPid> = {
+        let dummy = ExternalPid::new(Atom::new("none@none"), 0, 0, 0);
+        pids.lock().unwrap().iter().map(|p| p.clone().unwrap_or_else(|| dummy.clone())).collect()
+    };
+    let spawned = pids.iter().filter(|p| p.node.as_str() != "none@none").count();
+    {
+        let mut d: Vec<Val> = pids.iter().filter(|p| p.node.as_str() != "none@none").map(pid_val).collect();
+        d.sort();
+        d.dedup();
+        if d.len() != spawned {
+            w.violation("duplicate-pid", "spawn returned the same identifier twice".to_string());
+        }
+    }
     let pvals: Vec<Val> = pids.iter().map(pid_val).collect();
+    let mut p_all = p.clone();
+    p_all.n_procs = np as u32;
+    let p = &p_all;
     check_delivery(w, p, &ops, &events, &failed_at);
     check_notifications(w, p, &ops, &events, &failed_at, &dropped_at, &pvals);
     check_names(w, p, &ops, &failed_at, &dropped_at, &pvals);
 
     // post-quiescence state
-    let live = np - failed_at.len();
+    let live = spawned - failed_at.len();
     let count = node.process_count().await;
     if count != live {
         w.violation("process-count", format!("process_count() is {} with {} live processes", count, live));
@@ -468,7 +528,7 @@ async fn procs(w: &Arc<World>, p: &Plan) {
     }
     // a name that does not resolve can be registered again (whether a name may still resolve is
     // decided by the history check above, which includes the final observation)
-    let live_idx = (0..np).find(|i| !failed_at.contains_key(i));
+    let live_idx = (0..np).find(|i| !failed_at.contains_key(i) && pids[*i].node.as_str() != "none@none");
     for (ni, name) in names.iter().enumerate() {
         if node.whereis(name).await.is_none() {
             if let Some(l) = live_idx {
